@@ -86,6 +86,8 @@ def classes():
             s = coopsched.Sched.cur
             if s is not None and s.killed:
                 raise coopsched.Kill()
+            if len(self.trace) > 400:
+                return            # watchdog against a runaway run loop
             t = float(self.simulator.simulator_time)
             self.trace.append((t, tag))
             self.w.stream.append(("EXEC", t, tag))
